@@ -21,6 +21,10 @@ members whose Python value differs from their name):
       directive the edit touches validates against new (all operations for root / schema-level edits);
   (d) the sequence of changes is the same for every definition order (within each construction
       route) and every hash seed.
+  (e) call histories on the SAME schema objects (constructor route): diff(old, new); edit `new` in place
+      through public attributes (add / remove a field, input field, argument); diff again == diff of a
+      freshly built pair carrying the same edit; repeating a diff, or diffing in the other direction in
+      between, changes nothing.
 """
 import atexit
 import json
@@ -214,6 +218,11 @@ def _cases(tier):
         n = len(_edit_list(b))
         for lo in range(0, n, CHUNK):
             yield {"fam": "single", "base": b, "lo": lo, "hi": min(n, lo + CHUNK)}
+    # histories on the same schema objects: diff, in-place edit, diff again
+    for b in ("kitchen", "members"):
+        n = len(_inplace_edits(b))
+        for lo in range(0, n, 2 * CHUNK):
+            yield {"fam": "inplace", "base": b, "lo": lo, "hi": min(n, lo + 2 * CHUNK)}
     # wrapper matrix
     ws = M.wrappers(BOUNDS[tier]["wrapper_list_levels"])
     for pk in cs_bases.WRAPPER_POSITIONS:
@@ -658,7 +667,118 @@ def evaluate_items(items, st=None, nseeds=len(SEEDS)):
     return results
 
 
+# ------------------------------------------------------------------------------------------
+# call histories on the SAME schema objects: diff, edit one of the schemas in place, diff again
+
+INPLACE_OPS = ("add-field", "remove-field", "add-input-field", "add-arg", "remove")
+
+
+def _inplace_edits(base):
+    out = []
+    for e in _edit_list(base):
+        if e["op"] in ("add-field", "remove-field", "add-input-field", "add-arg") and not e.get("cascade"):
+            out.append(e)
+        elif e["op"] == "remove" and e["at"][0] in ("arg", "input-field"):
+            out.append(e)
+    return out
+
+
+def _apply_in_place(schema, e):
+    """the elementary edit e applied to a built schema through public attributes (no rebuild)."""
+    from py_gql.schema import Argument, Field, InputField, Int, NonNullType
+
+    def mk(cls, atype, default):
+        t = NonNullType(Int) if atype.endswith("!") else Int
+        return cls(cs_edits.ADDED, t, **({"default_value": default[0]} if default else {}))
+
+    op = e["op"]
+    if op == "add-field":
+        t = schema.types[e["type"]]
+        t.fields = list(t.fields) + [Field(cs_edits.ADDED, Int)]
+    elif op == "remove-field":
+        t = schema.types[e["type"]]
+        t.fields = [f for f in t.fields if f.name != e["field"]]
+    elif op == "add-input-field":
+        t = schema.types[e["type"]]
+        t.fields = list(t.fields) + [mk(InputField, e["atype"], [e["default"]] if "default" in e else None)]
+    elif op == "add-arg":
+        f = schema.types[e["at"][1]].field_map[e["at"][2]]
+        f.arguments = list(f.arguments) + [mk(Argument, e["atype"], [e["default"]] if "default" in e else None)]
+    elif op == "remove":
+        at = e["at"]
+        if at[0] == "input-field":
+            t = schema.types[at[1]]
+            t.fields = [f for f in t.fields if f.name != at[2]]
+        else:
+            f = schema.types[at[1]].field_map[at[2]]
+            f.arguments = [a for a in f.arguments if a.name != at[3]]
+    else:
+        raise ValueError(op)
+    schema._is_valid = None  # what register_* do after changing a schema in place
+
+
+def eval_inplace_history(base, e, st=None):
+    """-> list of (class, detail)"""
+    out = []
+    old_sm = cs_bases.get(base)
+    new_sm = cs_edits.apply_edit(old_sm, e)
+    if new_sm is None:
+        return out
+    try:
+        fresh = cs_diffrun.run_diff(cs_diffrun.build(old_sm, "code"), cs_diffrun.build(new_sm, "code"))
+        fresh_rev = cs_diffrun.run_diff(cs_diffrun.build(new_sm, "code"), cs_diffrun.build(old_sm, "code"))
+    except Exception:  # noqa -- the edited model is not a valid schema
+        if st is not None:
+            st.n("edit_yields_invalid_schema")
+        return out
+    desc = "%s, then in place %s" % (base, json.dumps(e))
+    kind = cs_edits.edit_kind(e)
+    a = cs_diffrun.build(old_sm, "code")
+    b = cs_diffrun.build(old_sm, "code")
+    try:
+        d0 = cs_diffrun.run_diff(a, b)
+        d1 = cs_diffrun.run_diff(a, b)
+        _apply_in_place(b, e)
+        d2 = cs_diffrun.run_diff(a, b)
+        d3 = cs_diffrun.run_diff(a, b)
+        r1 = cs_diffrun.run_diff(b, a)
+        d4 = cs_diffrun.run_diff(a, b)
+    except Exception as ex:  # noqa
+        return [("history:crash:%s" % type(ex).__name__, "%r for %s" % (ex, desc))]
+    if st is not None:
+        st.n("evaluations", 6)
+        st.n("inplace_histories")
+        st.nt(("inplace", desc))
+    if d0 or d1:
+        out.append(("equal-schemas-differ", "two builds of %s: first diff %s, second diff %s" % (base, d0, d1)))
+    if d2 != fresh:
+        out.append(
+            (
+                "history:in-place-edit-misreported:%s" % kind,
+                "diff(old, new) after a first diff and the in-place edit gives %s; freshly built schemas with the same edit give %s; %s"
+                % ([x[2] for x in d2], [x[2] for x in fresh], desc),
+            )
+        )
+    if d3 != d2 or d4 != d2:
+        out.append(("history:repeated-diff-differs", "same objects diffed again: %s then %s then (after the reverse diff) %s; %s" % ([x[2] for x in d2], [x[2] for x in d3], [x[2] for x in d4], desc)))
+    if r1 != fresh_rev:
+        out.append(
+            (
+                "history:reverse-diff-influenced:%s" % kind,
+                "diff(new, old) after diff(old, new) gives %s; fresh pair gives %s; %s" % ([x[2] for x in r1], [x[2] for x in fresh_rev], desc),
+            )
+        )
+    return out
+
+
 def check_case(case, st):
+    if case["fam"] == "inplace":
+        out = []
+        st.n("fam:inplace")
+        for e in _inplace_edits(case["base"])[case["lo"] : case["hi"]]:
+            for cls, detail in eval_inplace_history(case["base"], e, st):
+                out.append((cls, {"fam": "inplace", "base": case["base"], "edit": e}, detail))
+        return out
     items = _items_of(case)
     st.n("fam:" + case["fam"])
     if case["fam"] in ("single", "wrap") and st.counters.get("cases", 0) % 7 == 1:
@@ -679,6 +799,8 @@ def check_case(case, st):
 
 
 def replay(witness):
+    if witness.get("fam") == "inplace":
+        return eval_inplace_history(witness["base"], witness["edit"])
     res = evaluate_items([witness], None)[0]
     seen, out = set(), []
     for cls, detail in res:
